@@ -118,9 +118,12 @@ def sym_ejson_roundtrip(vc):
         def thunk(it, case=case):
             SF = install_datetime_model(it)
             m = it.module('dataflows.helpers.extended_json')
-            # module constants are platform dependent at import time; both admissible variants use the same parse formats
-            m.attrs.update(DATE_F_FORMAT='%04Y-%m-%d', DATETIME_F_FORMAT='%04Y-%m-%dT%H:%M:%S', TIME_F_FORMAT='%H:%M:%S',
-                           DATE_P_FORMAT='%Y-%m-%d', DATETIME_P_FORMAT='%Y-%m-%dT%H:%M:%S', TIME_P_FORMAT='%H:%M:%S')
+            # the six format constants are those the module's own top-level code computes (its platform probe is answered as
+            # on glibc by the datetime stub); the obligations below name the format pairs for which T10 holds, so a constant
+            # that drifts away from them fails its round-trip obligation
+            for cname in ('DATE_F_FORMAT', 'DATETIME_F_FORMAT', 'TIME_F_FORMAT', 'DATE_P_FORMAT', 'DATETIME_P_FORMAT', 'TIME_P_FORMAT'):
+                if not isinstance(m.attrs.get(cname), str):
+                    raise lib.Unsupported('CONTRACT-MAPPING extended_json.%s is not a string constant: %r' % (cname, m.attrs.get(cname)))
             dtT = it.module('datetime').attrs['datetime']
             # datetime.datetime.strptime / combine are attribute lookups on the type
             lib_getattr = it.lib.getattr_
